@@ -75,15 +75,17 @@ def run(ctx):
         return
 
     # 1. the design: every invariant / step property, exhaustively. Quick: parent + child, 3 pending
-    #    notifications per object. Thorough: the same with 4, and parent + child + unrelated object
-    #    (one put / fetch in flight).
+    #    notifications per object. Thorough: the same with 4 (exhaustive), and parent + child +
+    #    unrelated object by simulation.
     ctx.tlc_expect_ok("deletion", "DeletionMC", "Deletion_mc.cfg", coverage=True, timeout=2400, workers=min(ctx.cores, 12))
     if thorough:
         base4 = open(os.path.join(_verif(), "spec", "deletion", "Deletion_mc.cfg")).read().replace("MaxObs = 3", "MaxObs = 4")
         ctx.tlc_expect_ok("deletion", "DeletionMC", "mc4.cfg", files={"mc4.cfg": base4}, timeout=3000,
                           workers=min(ctx.cores, 12), name="deletion/DeletionMC:2-objects-MaxObs-4")
-        ctx.tlc_expect_ok("deletion", "DeletionMC", "Deletion_mc_t.cfg", coverage=True, timeout=5400,
-                          workers=min(ctx.cores, 12))
+        # three objects: the exhaustive graph has several million states (measured > 2.5 M distinct with
+        # the tightest useful bounds), so this configuration is explored by random walks
+        ctx.tlc_expect_ok("deletion", "DeletionMC", "Deletion_mc_t.cfg", simulate=4000, depth=45, timeout=2400,
+                          workers=min(ctx.cores, 8), name="deletion/DeletionMC:3-objects-simulation")
 
     # 2. the model separates the code as found / each acceptance mutant from the repaired code; the
     #    counterexamples become schedules for the real code. Quick tier: the as-found switch is
@@ -123,13 +125,13 @@ def run(ctx):
     # 3. random behaviours of the specification (TLC simulation)
     emit = os.path.join(ctx.scratch, "emit")
     os.makedirs(emit)
-    traces = 120 if thorough else 12
+    traces = 80 if thorough else 12
     ctx.tlc_expect_ok("deletion", "DeletionGen", "DeletionGen_q.cfg", workers=1, simulate=traces, depth=29,
                       env={"VERIF_EMIT_DIR": emit}, timeout=1500, count=False, name="schedule-generation")
     files = sorted(os.listdir(emit))
     if not files:
         raise _broken("no schedules emitted")
-    want = 700 if thorough else 55
+    want = 450 if thorough else 55
     stride = max(1, len(files) // want)
     picked = files[(ctx.seed % stride)::stride][:want]
     for f in picked:
@@ -149,12 +151,12 @@ def run(ctx):
                       coverage=True, timeout=2400, workers=min(ctx.cores, 12))
     lemit = os.path.join(ctx.scratch, "log-emit")
     os.makedirs(lemit)
-    ctx.tlc_expect_ok("deletion", "SettingsLogGen", "SettingsLogGen_q.cfg", workers=1, simulate=(200 if thorough else 30),
+    ctx.tlc_expect_ok("deletion", "SettingsLogGen", "SettingsLogGen_q.cfg", workers=1, simulate=(150 if thorough else 30),
                       depth=14, env={"VERIF_EMIT_DIR": lemit}, timeout=1500, count=False, name="settings-log-generation")
     lfiles = sorted(os.listdir(lemit))
     if not lfiles:
         raise _broken("no settings-log behaviours emitted")
-    lwant = 400 if thorough else 40
+    lwant = 250 if thorough else 40
     lstride = max(1, len(lfiles) // lwant)
     keep = set(lfiles[(ctx.seed % lstride)::lstride][:lwant])
     for f in lfiles:
